@@ -73,7 +73,11 @@ func r031(c *an.Ctx) {
 		}
 		name := "(*pkg/resource." + recv + ").onUpdate"
 		li := w.Info[fn]
-		listens := an.CallsTo(fn, busListen)
+		// the registration, in onUpdate itself or in a helper it delegates to (each call of the helper is a site)
+		var listens []ssa.Instruction
+		for _, vc := range an.CallsToDeep(fn, busListen) {
+			listens = append(listens, vc.Site)
+		}
 		if len(listens) == 0 {
 			c.Bad(rule, name+"|snapshot and registration atomic", fn.Pos(), "onUpdate never registers a bus listener")
 			continue
@@ -96,10 +100,13 @@ func r031(c *an.Ctx) {
 		why := ""
 		for _, l := range listens {
 			for _, s := range snaps {
-				if !an.Reaches(s, l) {
+				if an.Reaches(l, s) {
 					ok = false
 					why = "the snapshot is taken after the listener is registered on some path"
 					continue
+				}
+				if !an.Reaches(s, l) {
+					continue // on different paths (an updates-only subscription takes no snapshot)
 				}
 				lock := ""
 				for k := range li.At(s) {
@@ -203,6 +210,22 @@ func litFields(v ssa.Value) (map[string]ssa.Value, *ssa.Alloc) {
 		}
 	}
 	return out, alloc
+}
+
+// litCopiedFrom: the literal's variable starts as a copy of another object (`filtered := *v`): the pointer that was
+// copied from, or nil. Fields not assigned afterwards keep that object's values.
+func litCopiedFrom(alloc *ssa.Alloc) ssa.Value {
+	if alloc == nil {
+		return nil
+	}
+	for _, u := range an.Referrers(alloc) {
+		if st, ok := u.(*ssa.Store); ok && st.Addr == ssa.Value(alloc) {
+			if ld, isLoad := st.Val.(*ssa.UnOp); isLoad && ld.Op == token.MUL {
+				return ld.X
+			}
+		}
+	}
+	return nil
 }
 
 func allAre(vs []ssa.Value, pred func(ssa.Value) bool) bool {
